@@ -67,8 +67,8 @@ MUTANTS += [
          "                event = None  # type: ignore\n                self._ok = False",
          "                event = None  # type: ignore\n                self._ok = isinstance(e, KeyError)")]),
     dict(prop='C02', name='exception-copy-drops-args', edits=[(EVENTS,
-         "                    exc = type(event._value)(*event._value.args)\n                    exc.__cause__ = event._value\n                    event = self._generator.throw(exc)",
-         "                    exc = type(event._value)(*event._value.args[:1])\n                    exc.__cause__ = event._value\n                    event = self._generator.throw(exc)")]),
+         "        exc = cls(*failure.args)\n",
+         "        exc = cls(*failure.args[:1])\n")]),
     dict(prop='C02', name='return-value-none-when-falsy', edits=[(EVENTS,
          "                self._value = e.args[0] if len(e.args) else None",
          "                self._value = (e.args[0] or None) if len(e.args) else None")]),
@@ -208,7 +208,7 @@ MUTANTS += [
     dict(prop='C09', name='stamp-with-packet-creation-time', edits=[(PORT, "packet.perhop_time[self.element_id] = self.env.now", "packet.perhop_time[self.element_id] = packet.time")]),
     dict(prop='C09', name='red-min-max-swapped', edits=[(REDP, "        elif self.average_queue_size >= self.min_threshold:", "        elif self.average_queue_size > self.min_threshold * 1.5:")]),
     dict(prop='C09', name='red-probability-inverted', edits=[(REDP, "            if rand <= prob:", "            if rand >= prob:")]),
-    dict(prop='C09', name='red-qlimit-gt', edits=[(REDP, "        if self.average_queue_size >= self.qlimit:", "        if self.average_queue_size > self.qlimit + 1:")]),
+    dict(prop='C09', name='red-qlimit-gt', edits=[(REDP, "        if self.qlimit is not None and self.average_queue_size >= self.qlimit:", "        if self.qlimit is not None and self.average_queue_size > self.qlimit + 1:")]),
     dict(prop='C09', name='monitor-excluded-forgets-busy', edits=[(PMON, "self.port.byte_size - self.port.busy_packet_size", "self.port.byte_size - self.port.busy_packet_size * self.port.busy * (len(self.port.store.items) > 0)")]),
 ]
 
@@ -265,7 +265,7 @@ MUTANTS += [
     # ---- C14
     dict(prop='C14', name='wfq-skip-stamp-for-first-again', edits=[(WFQF, "            self.update_vtime()\n        self.finish_times[class_id] = max(", "            self.update_vtime()\n        if len(self.active_set) > 0 or True and self.packets_received % 7 != 3:\n          self.finish_times[class_id] = max(")]),
     dict(prop='C14', name='wfq-min-for-max', edits=[(WFQF, "        self.finish_times[class_id] = max(\n            self.finish_times[class_id], self.vtime\n        )", "        self.finish_times[class_id] = min(\n            self.finish_times[class_id], self.vtime\n        )")]),
-    dict(prop='C14', name='wfq-weight-sum-over-all-classes', edits=[(WFQF, "        for i in self.active_set:\n            weight_sum += self.weights[i]", "        for i in self.weights:\n            weight_sum += self.weights[i]")]),
+    dict(prop='C14', name='wfq-weight-sum-over-all-classes', edits=[(WFQF, "            if i in self.active_set:\n                weight_sum += self.weights[i]", "            if True:\n                weight_sum += self.weights[i]")]),
     dict(prop='C14', name='vc-tuple-key-without-tiebreak', edits=[(VCF, "PriorityItem((self.aux_vc[class_id], self.packets_received), packet)", "PriorityItem((self.aux_vc[class_id], -self.packets_received), packet)")]),
     dict(prop='C14', name='vc-stamp-uses-size', edits=[(VCF, "        self.aux_vc[class_id] += self.vticks[class_id]\n", "        self.aux_vc[class_id] += self.vticks[class_id] * (2 if packet.size > 1000 else 1)\n")]),
     # ---- C15
@@ -283,11 +283,11 @@ MUTANTS += [
     # ---- C19
     dict(prop='C19', name='restart-forgets-to-interrupt-sleeper', edits=[(TIMER, "            self.proc.interrupt(\"restart timer\")\n", "            pass\n")]),
     dict(prop='C19', name='stop-does-not-set-flag', edits=[(TIMER, "        self.stopped = True\n        self.expire_time = self.env.now", "        self.expire_time = self.env.now")]),
-    dict(prop='C19', name='auto-restart-rearms-from-start-time', edits=[(TIMER, "                        self.expire_time = env.now + self.timeout", "                        self.expire_time = self.start_time + 2 * self.timeout")]),
-    dict(prop='C19', name='args-passed-as-one-tuple', edits=[(TIMER, "                    self.timeout_callback(*self.args, **self.kwargs)", "                    self.timeout_callback(self.args, **self.kwargs) if len(self.args) > 1 else self.timeout_callback(*self.args, **self.kwargs)")]),
+    dict(prop='C19', name='auto-restart-rearms-from-start-time', edits=[(TIMER, "                self.expire_time = env.now + self.timeout\n", "                self.expire_time = self.start_time + 2 * self.timeout\n")]),
+    dict(prop='C19', name='args-passed-as-one-tuple', edits=[(TIMER, "                self.timeout_callback(*self.args, **self.kwargs)", "                self.timeout_callback(self.args, **self.kwargs) if len(self.args) > 1 else self.timeout_callback(*self.args, **self.kwargs)")]),
     dict(prop='C19', name='restart-keeps-old-period-for-auto', edits=[(TIMER, "        self.start_time = self.env.now\n        self.timeout = timeout\n", "        self.start_time = self.env.now\n        self.timeout = timeout if not self.auto_restart else self.timeout\n")]),
     dict(prop='C19', name='restart-from-callback-interrupts-again', edits=[(TIMER, "        if self.env.active_process is self.proc:\n", "        if self.env.active_process is self.proc and self.auto_restart:\n")]),
-    dict(prop='C19', name='stop-ignored-at-expiry-instant', edits=[(TIMER, "                if not self.stopped:", "                if not self.stopped or self.expire_time == env.now and self.start_time + self.timeout == env.now:")]),
+    dict(prop='C19', name='stop-ignored-at-expiry-instant', edits=[(TIMER, "                if self.stopped:\n                    return\n                armed = self._armed", "                if self.stopped and not (self.expire_time == env.now and self.start_time + self.timeout == env.now):\n                    return\n                armed = self._armed")]),
     dict(prop='C19', name='restart-of-dead-timer-raises-again', edits=[(TIMER, "        if self.proc.is_alive:", "        if not self.proc.processed:")]),
     dict(prop='C19', name='kwargs-dropped', edits=[(TIMER, "self.timeout_callback(*self.args, **self.kwargs)", "self.timeout_callback(*self.args)")]),
 ]
@@ -305,7 +305,7 @@ MUTANTS += [
     dict(prop='C08', name='generator-id-off-by-one-after-10', edits=[(DGEN, "                self.packets_send,\n", "                self.packets_send + (self.packets_send > 10),\n")]),
     dict(prop='C08', name='generator-size-drawn-before-wait', edits=[(DGEN, "            yield env.timeout(self.arrival_dist())\n            self.packets_send += 1", "            _gap = self.arrival_dist()\n            yield env.timeout(_gap * (1.0 if self.packets_send < 7 else 1.5))\n            self.packets_send += 1")]),
     dict(prop='C08', name='tb-rewrites-packet-time', edits=[(TB, "            self.out.put(packet)\n\n            self.packets_sent += 1", "            if packet.size > self.bucket_size:\n                packet.time = env.now\n            self.out.put(packet)\n\n            self.packets_sent += 1")]),
-    dict(prop='C18', name='flowdemux-default-consulted-first', edits=[(DEMUX, "        if flow_id < len(self.outs):\n            self.outs[flow_id].put(packet)", "        if flow_id < len(self.outs) and not (self.default_out and flow_id == len(self.outs) - 1):\n            self.outs[flow_id].put(packet)")]),
+    dict(prop='C18', name='flowdemux-default-consulted-first', edits=[(DEMUX, "        if 0 <= flow_id < len(self.outs):\n            self.outs[flow_id].put(packet)", "        if 0 <= flow_id < len(self.outs) and not (self.default_out and flow_id == len(self.outs) - 1):\n            self.outs[flow_id].put(packet)")]),
     dict(prop='C08', name='sink-interarrival-uses-first-arrival', edits=[(SINK, "self.arrivals[rec_index][-1] = now - self.last_arrival[rec_index]", "self.arrivals[rec_index][-1] = now - (self.last_arrival[rec_index] if len(self.arrivals[rec_index]) < 4 else self.first_arrival[rec_index])")]),
     dict(prop='C08', name='drr-parks-head-and-forgets-it', edits=[(DRRF, "                            assert not class_id in self.head_of_line\n                            self.head_of_line[class_id] = packet", "                            assert not class_id in self.head_of_line\n                            if packet.size < 1000:\n                                self.head_of_line[class_id] = packet")]),
 ]
